@@ -717,7 +717,7 @@ fn generate(out: &mut Out) {
     let seed = seed_from_env();
     let mut r = Rng::new(seed ^ 0xC18);
     let thorough = is_thorough();
-    let scale = if thorough { 12 } else { 1 };
+    let scale = if thorough { 40 } else { 4 };
     let mut emit = |c: Case| { let line = case_line(&c); let toks: Vec<String> = line.split(' ').map(|s| s.to_string()).collect(); let c2 = parse_case(&toks);
         let res = guarded(move || run_case(&c2)); out.emit(&line, &res); };
 
@@ -742,6 +742,33 @@ fn generate(out: &mut Out) {
     for _ in 0..(60 * scale) { let nk = 2 + r.below(5); emit(gen_mix(&mut r, "readd", nk, 6, 1, false, 0)); }
     // outpoints added again with another owner (known class 1 when the count is off)
     for _ in 0..(30 * scale) { let nk = 2 + r.below(5); emit(gen_mix(&mut r, "reown", nk, 5, 2, false, 0)); }
+    // ... with many keys, so that the first owner's key is not needed by anything else
+    for _ in 0..(15 * scale) {
+        let mut g = new_gen(&mut r, 40);
+        let mut c = Case::default(); c.label = "reown2".into();
+        let n = 2 + g.r.below(4);
+        c.inputs = g.inops(n, &[0, 0, 1, 2], 2, false);
+        let m = g.r.below(3);
+        c.collateral = g.inops(m, &[0, 1], 2, false);
+        emit(finish(c));
+    }
+    // every insertion order of a small overlapping history (inputs builder and certificates)
+    for _ in 0..(2 * scale) {
+        let mut g = new_gen(&mut r, 3);
+        let base_in = g.inops(4, &[0, 1, 2, 3, 4], 1, false);
+        let base_certs: Vec<CertOp> = (0..3).map(|_| { let k = g.r.below(19) as u32; g.cert(k, 30, false, 0, 0) }).collect();
+        let signers = g.keys(2);
+        let perms4: Vec<Vec<usize>> = { let mut v = vec![]; for a in 0..4 { for b in 0..4 { for c in 0..4 { for d in 0..4 {
+            if a != b && a != c && a != d && b != c && b != d && c != d { v.push(vec![a, b, c, d]); } } } } } v };
+        for (pi, p) in perms4.iter().enumerate() {
+            let mut c = Case::default(); c.label = "perm".into();
+            c.inputs = p.iter().map(|i| base_in[*i].clone()).collect();
+            let q = &perms4[(pi * 7) % 24];
+            c.certs = q.iter().filter(|i| **i < 3).map(|i| base_certs[*i].clone()).collect();
+            c.signers = signers.clone();
+            emit(finish(c));
+        }
+    }
     // the same script inline here and by reference there (known class 2)
     for _ in 0..(40 * scale) { let nk = 2 + r.below(5); emit(gen_mix(&mut r, "mixed", nk, 5, 0, true, 0)); }
     // witnesses that do not belong to the item's script credential (outside the premises: na)
